@@ -5,7 +5,7 @@
     source are regenerated into Gen/FsWalk_gen.v on every run and the premises [backend_keys_ok], [walk_ok] (and
     the chain parameters) are discharged for them by kernel-checked instance obligations in checks/c19.py. *)
 From Coq Require Import List NArith Bool Permutation.
-From SV Require Import SM.FsChain SM.FsChainProofs SM.FsChainRel SM.FsChainWitness SM.FsChainRaw SM.FsChainCompose SM.FsChainComplete SM.FsChainNorm SM.FsChainForms SM.FsChainFormsProofs SM.FsChainWhole SM.FsChainWholeProofs SM.FsChainRead SM.FsChainReadProofs SM.FsChainMixed SM.FsChainMixedProofs SM.FsChainAdd SM.FsChainAddProofs SM.FsChainWalkGen.
+From SV Require Import SM.FsChain SM.FsChainProofs SM.FsChainRel SM.FsChainWitness SM.FsChainRaw SM.FsChainCompose SM.FsChainComplete SM.FsChainNorm SM.FsChainForms SM.FsChainFormsProofs SM.FsChainWhole SM.FsChainWholeProofs SM.FsChainRead SM.FsChainReadProofs SM.FsChainMixed SM.FsChainMixedProofs SM.FsChainAdd SM.FsChainAddProofs SM.FsChainWalkGen SM.FsChainNoise.
 Import ListNotations.
 Open Scope N_scope.
 
@@ -618,3 +618,38 @@ Theorem c19_chain_walk_directory_folder_case_refuted :
 Proof. exact walk_dir_folder_case_refuted. Qed.
 Example c19_chain_walk_mixed_premises_satisfiable : Forall (gmember_ok [115; 117; 98]) dir_then_zip /\ okp [115; 117; 98].
 Proof. exact walk_mixed_premises_satisfiable. Qed.
+
+(** ** Round 4: subfolder prefixes and folder arguments in any spelling. *)
+
+(** [spells p p0]: [p] is relative, has no ".." segment, and its segments without the empty and "." ones are those of
+    [p0], either slash ("d/", "./d", "d/.", "d\\.\\e//" ...).  Spellings of one path have one normal form, the name a
+    member is asked for has the same normal form under either spelling of its prefix, and the chain drops the same
+    number of segments from a listed path. *)
+Theorem c19_spellings_one_normal_form : forall p p0 q q0,
+  spells p p0 -> spells q q0 ->
+  normpath (slash p) = normpath (slash p0)
+  /\ normpath (slash (full_name p q)) = normpath (slash (full_name p0 q0))
+  /\ (forall x, drop_segs x p = drop_segs x p0).
+Proof.
+  intros p p0 q q0 Hp Hq. split; [apply spells_normpath; exact Hp|]. split; [apply spells_full_name; assumption|].
+  intros x. apply spells_drop_segs. exact Hp.
+Qed.
+(** Hence the composition for members of today's form (queries and the walk's folder go through normpath after the slash
+    conversion: [backend_keys_norm], [walk_norm]) mounted under *any spelling* of an empty or clean subfolder and walked
+    with any spelling of an empty or clean folder: every (path, File) listed is what the chain's lookup returns. *)
+Theorem c19_chain_walk_any_spelling : forall dops ms f f0 x,
+  dedup_ops_ok dops = true -> Forall (noisy_member f f0) ms ->
+  In x (chain_walk RelDropSegs dops ms f) ->
+  chain_get ms (fst x) = Some (snd x).
+Proof. exact chain_walk_lookup_closed_noisy. Qed.
+(** ... also with directory members among them (cleanly spelt, exact folder). *)
+Theorem c19_chain_walk_any_member : forall dops ms f f0 x,
+  dedup_ops_ok dops = true -> Forall (any_member f f0) ms ->
+  In x (chain_walk RelDropSegs dops ms f) ->
+  chain_get ms (fst x) = Some (snd x).
+Proof. exact chain_walk_lookup_closed_all. Qed.
+Example c19_spelling_examples :
+  spells [46; 47; 100] [100] /\ spells [100; 47] [100] /\ spells [100; 47; 46] [100]
+  /\ spells [100; 92; 46; 92; 101; 47; 47] [100; 47; 101] /\ spells [46] [] /\ spells [46; 47] [] /\ spells [] []
+  /\ ~ spells [100; 47; 46; 46] [].
+Proof. exact spells_examples. Qed.
